@@ -345,6 +345,10 @@ func commonExitChecks(r *sysRun) {
 		return
 	}
 	for _, a := range r.auditAt {
+		if strings.HasPrefix(a, grandchildMark) {
+			c.violate("exit.signal_leaves_grandchild", "%s", strings.TrimPrefix(a, grandchildMark))
+			continue
+		}
 		c.violate("exit.unclean", "at the instant fzf returned (exit %d): %s", r.code, a)
 	}
 	switch r.code {
